@@ -89,6 +89,17 @@ def validate_args(func):
         for pname, value in list(bound.arguments.items()):
             if isinstance(value, xlerrors.ExcelError):
                 return value
+            param = sig.parameters[pname]
+            if (param.kind == param.VAR_POSITIONAL
+                    and param.annotation is not param.empty
+                    and func_xltypes.XlArray not in getattr(
+                        param.annotation, '__args__', ())):
+                # An error among the items of a typed argument list (or of
+                # a range given in it) is the result. (Untyped lists, as
+                # taken by COUNT and COUNTA, inspect errors themselves.)
+                for item in flatten(value):
+                    if isinstance(item, xlerrors.ExcelError):
+                        return item
             try:
                 bound.arguments[pname] = _validate(
                     sig.parameters[pname].annotation, value, pname)
